@@ -26,7 +26,10 @@ CONSTANTS
     DTs,             \* time steps in microseconds
     Base,            \* rows already on the terminal
     Align,           \* "top" / "bottom"
-    M0               \* "e": bars start with an empty message, "id": with their own digit
+    M0,              \* "e": bars start with an empty message, "id": with their own digit
+    Pre,             \* bars already added (Multi) when the enumeration starts
+    Once,            \* TRUE: finish-type operations only on unfinished bars (keeps focused families small)
+    TabWs            \* initial tab widths given through with_tab_width (8 = default, builder not called)
 
 VARIABLES S, hist, nlog, done
 vars == <<S, hist, nlog, done>>
@@ -48,6 +51,9 @@ Shape(name, base) ==
       [] name = "AnlB" -> Run(1, base) \o <<NL>> \o Run(W, base + 1)
       [] name = "AnnB" -> Run(1, base) \o <<NL, NL>> \o Run(1, base + 1)
       [] name = "nl"   -> <<NL>>
+      [] name = "WnnA" -> Run(W, base) \o <<NL, NL>> \o Run(1, base + 1)            \* full-width line, empty line, text
+      [] name = "WnA"  -> Run(W, base) \o <<NL>> \o Run(1, base + 1)
+      [] name = "2WnnA" -> Run(2 * W, base) \o <<NL, NL>> \o Run(1, base + 1)
       [] name = "sgr"  -> <<2000>>
       [] name = "sA"   -> <<2000>> \o Run(2, base) \o <<2000>>
       [] name = "wide" -> <<1000, 1001>>
@@ -68,15 +74,23 @@ TextOf(name, n) ==
       [] name = "TnnT" -> <<Tag(n), NL, NL, Tag(n), 33>>
       [] name = "nlT"  -> <<NL, Tag(n)>>
       [] name = "Tnl"  -> <<Tag(n), NL>>
+      [] name = "TWnnT"  -> <<Tag(n)>> \o Run(W - 1, 97) \o <<NL, NL, Tag(n), 33>>     \* full-width line, empty line, text
+      [] name = "T2WnnT" -> <<Tag(n)>> \o Run(2 * W - 1, 97) \o <<NL, NL, Tag(n), 33>>
+      [] name = "TWnT"   -> <<Tag(n)>> \o Run(W - 1, 97) \o <<NL, Tag(n), 33>>
+      [] name = "TWnTW"  -> <<Tag(n)>> \o Run(W - 1, 97) \o <<NL, Tag(n)>> \o Run(W - 1, 110)
 
 Alive(b) == b \in S.ids /\ S.bars[b].alive
 AliveBars == {b \in S.ids : S.bars[b].alive}
 NextId == Cardinality(S.ids) + 1
 NoStatic == Statics(S) = {}
 
-NewOp(name, b, tpl, fin) ==
-    [op |-> name, b |-> b, len |-> 3, tpl |-> tpl, fin |-> fin, fm |-> <<70>>, m0 |-> IF M0 = "id" THEN <<48 + b>> ELSE <<>>, p0 |-> <<>>, pos0 |-> 0,
-     tabw |-> 8, target |-> IF Hz = 0 THEN "spy" ELSE "spy_hz", hz |-> Hz, idx |-> 0, b2 |-> 0, dt |-> 0]
+NewOp0(name, b, tpl, fin, tw, tf) ==
+    [op |-> name, b |-> b, len |-> 3, tpl |-> tpl, fin |-> fin, tabw_first |-> tf, fm |-> <<70>>, m0 |-> IF M0 = "id" THEN <<48 + b>> ELSE <<>>, p0 |-> <<>>, pos0 |-> 0,
+     tabw |-> tw, target |-> IF Hz = 0 THEN "spy" ELSE "spy_hz", hz |-> Hz, idx |-> 0, b2 |-> 0, dt |-> 0]
+
+NewOp(name, b, tpl, fin) == NewOp0(name, b, tpl, fin, 8, FALSE)
+(* with_tab_width before or after with_style: every order must expand consistently (C16) *)
+NewOps(name, b, tpl, fin) == UNION { { NewOp0(name, b, tpl, fin, tw, tf) : tf \in (IF tw = 8 THEN {FALSE} ELSE BOOLEAN) } : tw \in TabWs }
 
 BarOp(name, b, dt) == [op |-> name, b |-> b, dt |-> dt]
 
@@ -84,9 +98,9 @@ BarOp(name, b, dt) == [op |-> name, b |-> b, dt |-> dt]
 OpsNow ==
     LET base == 97 + (Len(hist) % 6) * 3 IN
     (* creation *)
-    (IF ~Multi /\ S.ids = {} THEN { NewOp("new", 1, t, f) : t \in Tpls, f \in Fins } ELSE {}) \cup
+    (IF ~Multi /\ S.ids = {} THEN UNION { NewOps("new", 1, t, f) : t \in Tpls, f \in Fins } ELSE {}) \cup
     (IF Multi /\ NextId <= MaxBars
-       THEN { NewOp("add", NextId, t, f) : t \in Tpls, f \in Fins } \cup
+       THEN UNION { NewOps("add", NextId, t, f) : t \in Tpls, f \in Fins } \cup
             (* RESTRICTION: where an index-based insertion lands relative to static  *)
             (* blocks of dropped bars is not specified by the property, so these are *)
             (* generated only while no static block exists.                          *)
@@ -98,7 +112,9 @@ OpsNow ==
                ELSE {})
        ELSE {}) \cup
     (* operations on live bars *)
-    UNION { UNION { (CASE nm \in {"tick", "reset", "finish", "finish_and_clear", "abandon", "finish_using_style", "force_draw", "drop", "clone", "drop_one"}
+    UNION { UNION { (CASE nm \in {"finish", "finish_and_clear", "abandon", "finish_using_style"}
+                            -> IF Once /\ S.bars[b].fin # "no" THEN {} ELSE { BarOp(nm, b, dt) }
+                       [] nm \in {"tick", "reset", "force_draw", "drop", "clone", "drop_one"}
                             -> { BarOp(nm, b, dt) }
                        [] nm = "burst" -> { ([n |-> 25] @@ BarOp(nm, b, dt)) }
                        [] nm \in {"inc", "set_position", "set_length", "inc_length", "dec_length"}
@@ -138,7 +154,12 @@ Advance(o) ==
         items == [j \in 1..Len(res.log) |-> LogItem(res.log[j])]
     IN [res.S EXCEPT !.above = hm.above \o items, !.order = hm.order]
 
-Init == /\ S = SInit(W, H, Multi, FALSE, Align) /\ hist = <<>> /\ nlog = 0 /\ done = FALSE
+RECURSIVE PreOps(_)
+PreOps(n) == IF n = 0 THEN <<>> ELSE Append(PreOps(n - 1), [NewOp("add", n, CHOOSE t \in Tpls : TRUE, CHOOSE f \in Fins : TRUE) EXCEPT !.m0 = <<48 + n>>])
+RECURSIVE PreState(_, _, _)
+PreState(S0, ops, i) == IF i > Len(ops) THEN S0 ELSE PreState(Apply(S0, Full(ops[i])).S, ops, i + 1)
+
+Init == /\ S = PreState(SInit(W, H, Multi, FALSE, Align), PreOps(Pre), 1) /\ hist = PreOps(Pre) /\ nlog = 0 /\ done = FALSE
 
 Dead == ~Multi /\ S.ids # {} /\ AliveBars = {}
 
